@@ -36,6 +36,7 @@ def shards(tier, seed):
         for L in ((8,) if tier == "quick" else (6, 8)):
             out.append(dict(name="%s/L%d" % (sk, L), kind="arch", sk=sk, L=L, weight=(16 ** min(sk.count("A"), 2)) * 10))
     out.append(dict(name="long/L69536", kind="long", L=69536, weight=3000))
+    out.append(dict(name="registered_activations", kind="extra_acts", weight=80))
     out.append(dict(name="affine", kind="affine", weight=50))
     out.append(dict(name="near_coincident", kind="near", weight=100))
     return out
@@ -205,6 +206,45 @@ def run_affine(rec, tier, seed):
     rec.sample(dict(kind="affine", lengths=[6, 8], bias_shifts=[0, 7.5]))
 
 
+def run_extra_acts(rec, tier, seed):
+    """Element-wise activations that are NOT in the library's table, registered the documented way
+    (additional_nonlinear_ops={type: the library's own rescale handler}): same rule, same multipliers."""
+    import copy
+    from tangermeme.deep_lift_shap import deep_lift_shap, _nonlinear
+    L = 8
+    X, R = D.inputs(L, seed)
+    Xr = X[:, None].expand(-1, R.shape[1], -1, -1).reshape(-1, *X.shape[1:])
+    Rr = R.reshape(-1, *R.shape[2:])
+    g = torch.Generator().manual_seed(55 + seed)
+    extra = [torch.nn.Softsign, torch.nn.Hardtanh, torch.nn.Tanhshrink, torch.nn.Hardsigmoid, torch.nn.Hardswish, torch.nn.Softmin]
+    for cls in extra[:5]:
+        for builtin_too in (False, True):
+            conv = torch.nn.Conv1d(D.A, 3, 3, padding=1).double()
+            lin = torch.nn.Linear(3 * L, 2).double()
+            with torch.no_grad():
+                for p_ in list(conv.parameters()) + list(lin.parameters()):
+                    p_.copy_(torch.randint(-4, 5, p_.shape, generator=g).double() / 4.0)
+            layers = [conv, cls()] + ([torch.nn.Conv1d(3, 3, 1).double(), torch.nn.Tanh()] if builtin_too else []) + [torch.nn.Flatten(), lin]
+            if builtin_too:
+                with torch.no_grad():
+                    for p_ in layers[2].parameters():
+                        p_.copy_(torch.randint(-4, 5, p_.shape, generator=g).double() / 4.0)
+            model = torch.nn.Sequential(*layers)
+            for target in (0, 1):
+                exp, band, nder = D.rescale_multipliers(copy.deepcopy(model), Xr, Rr, target)
+                case = dict(fn="deep_lift_shap", arch="Conv-%s%s-Flatten-Linear" % (cls.__name__, "-Conv-Tanh" if builtin_too else ""), target=target,
+                            additional_nonlinear_ops="{%s: _nonlinear}" % cls.__name__, weights_seed=seed)
+                rec.case(1, 1)
+                if band:
+                    rec.count("excluded_band")
+                    continue
+                st, raw = call(deep_lift_shap, model, X, target=target, references=R, batch_size=7, raw_outputs=True, device="cpu",
+                               additional_nonlinear_ops={cls: _nonlinear})
+                if st != "ok" or tuple(raw.shape) != tuple(R.shape) or not close(raw, exp.reshape(R.shape)):
+                    rec.violation("dls:multipliers_differ_from_rescale_rule:registered_activation", case, observed=raw if st != "ok" else None)
+    rec.sample(dict(kind="extra_acts", activations=[c.__name__ for c in extra[:5]]))
+
+
 def run_near(rec, tier, seed):
     """Designed near-coincident pre-activations: Flatten -> Linear -> ACT -> Linear where one hidden unit has delta_in = d."""
     from tangermeme.deep_lift_shap import deep_lift_shap
@@ -254,6 +294,8 @@ def run_shard(sh, tier, seed):
         run_arch(rec, sh, tier, seed)
     elif sh["kind"] == "long":
         run_long(rec, sh, tier, seed)
+    elif sh["kind"] == "extra_acts":
+        run_extra_acts(rec, tier, seed)
     elif sh["kind"] == "affine":
         run_affine(rec, tier, seed)
     else:
@@ -265,7 +307,9 @@ def replay(v):
     from mc.props.c04 import _parse
     c = v["case"]
     rec = Recorder(PID, "replay")
-    if "|long|" in c.get("arch", ""):
+    if "additional_nonlinear_ops" in c:
+        run_extra_acts(rec, "quick", c.get("weights_seed", 0))
+    elif "|long|" in c.get("arch", ""):
         run_long(rec, dict(L=c["L"]), "quick", c.get("weights_seed", 0))
     elif "|after_override" in c.get("arch", ""):
         sk, acts, convs, pool, ws = _parse(c["arch"])
